@@ -420,7 +420,7 @@ inline constexpr void Conversion<Unit::Volume, Unit::Volume::CubicMicroinch>::To
 }
 
 template <typename NumericType>
-inline const std::map<Unit::Volume, std::function<void(NumericType* const, const std::size_t size)>>
+inline const ConversionTable<Unit::Volume, NumericType>
     MapOfConversionsFromStandard<Unit::Volume, NumericType>{
       {Unit::Volume::CubicMetre,
        Conversions<Unit::Volume, Unit::Volume::CubicMetre>::FromStandard<NumericType>       },
@@ -455,9 +455,8 @@ inline const std::map<Unit::Volume, std::function<void(NumericType* const, const
 };
 
 template <typename NumericType>
-inline const std::
-    map<Unit::Volume, std::function<void(NumericType* values, const std::size_t size)>>
-        MapOfConversionsToStandard<Unit::Volume, NumericType>{
+inline const ConversionTable<Unit::Volume, NumericType>
+    MapOfConversionsToStandard<Unit::Volume, NumericType>{
           {Unit::Volume::CubicMetre,
            Conversions<Unit::Volume, Unit::Volume::CubicMetre>::ToStandard<NumericType>       },
           {Unit::Volume::CubicNauticalMile,
